@@ -110,7 +110,8 @@ func vEvalPruner(e dag.Expr, min, max vKey, lits map[string]int64, cmp expr.Comp
 		}
 		panic("arg")
 	}
-	c := cmp(arg(call.Args[0]), arg(call.Args[1]))
+	x, y := arg(call.Args[0]), arg(call.Args[1])
+	c := verif.MergeInt(func() int { return cmp(x, y) })
 	switch b.Op {
 	case "==":
 		return c == 0
@@ -136,7 +137,9 @@ func vCheckPruner(pred dag.Expr, truth func(vKey) bool, lits map[string]int64) {
 	key, min, max := vSymKey("key"), vSymKey("min"), vSymKey("max")
 	cmp := expr.NewValueCompareFn(order.Asc, true)
 	// the object's bounds really bound the key (nulls are the largest key)
-	verif.Assume(cmp(min.val(), key.val()) <= 0 && cmp(key.val(), max.val()) <= 0)
+	lo := verif.MergeInt(func() int { return cmp(min.val(), key.val()) })
+	hi := verif.MergeInt(func() int { return cmp(key.val(), max.val()) })
+	verif.Assume(lo <= 0 && hi <= 0)
 	pruned := vEvalPruner(pruner, min, max, lits, cmp)
 	if truth(key) {
 		verif.Assert(!pruned, "pruned-a-matching-key")
